@@ -62,7 +62,7 @@ def compress_domain(data, measurements):
 
 def exponential_mechanism(q, eps, sensitivity, prng=np.random, monotonic=False):
     coef = 1.0 if monotonic else 0.5
-    scores = coef*eps/sensitivity*q
+    scores = coef*eps/sensitivity*(q - q.max())
     probas = np.exp(scores - logsumexp(scores))
     return prng.choice(q.size, p=probas)
 
